@@ -52,7 +52,11 @@ SvcClauses(i, o, pts) ==
     ELSE ""
 
 (* the property promises a model for every two-class training set: an error, a panic or
-   a hang (watchdog) is a failure of the clause "Returns" *)
+   a hang (watchdog) is a failure of the clause "Returns".  "Two-class" means two distinct label
+   VALUES, whatever their arithmetic shape: the generator includes non-integer pairs inside one
+   unit interval, pairs straddling zero inside (-1, 1), pairs closer than machine epsilon,
+   adjacent floats, huge / subnormal pairs and -0.0 (field `lab`); such labels are carried as
+   the codes 0 (smaller) / 1 (larger), predictions are mapped back by bit-pattern lookup *)
 SvcVerdict(e) ==
     IF e.status # "ok" THEN "Returns" ELSE SvcClauses(e.in, e.out, e.in.X \o e.in.Q)
 
@@ -61,6 +65,8 @@ SvcTags(e) ==
     \cup (IF e.src = "sched" THEN {"SvcSched"} ELSE IF e.src = "unseeded" THEN {"SvcUnseeded"} ELSE {"SvcRand"})
     \cup (IF ~IsSchedule(e.in.sched, Len(e.in.X), e.in.epochs) THEN {"BadSchedule"} ELSE {})
     \cup (IF e.in.api THEN {"SvcApi"} ELSE {})            \* fitted / predicted through the api traits
+    \* label pairs with a special arithmetic shape (y then holds the order-preserving codes 0 / 1)
+    \cup (IF e.in.lab # "int" THEN {"SvcFloatLabels", "SvcLab_" \o e.in.lab} ELSE {})
     \cup (IF Len(e.in.X) >= 129 THEN {"SvcLarge"} ELSE {})
     \cup (IF e.status = "ok"
           THEN (IF Len(e.in.sched) > 0 /\ e.out.left # 0 THEN {"Drift"} ELSE {})
@@ -261,6 +267,8 @@ HitNames == {"SvcFit", "Svc_linear", "Svc_rbf", "Svc_poly", "Svc_sigmoid", "SvcS
              "KRoot2", "KRoot4", "KRootUndefined", "FitRootClosed",
              "SvrNarrowBand", "SvrBandSkewed", "SvrConstantTargets", "SvrNoSv", "SvrNoSvKKT",
              "SvcApi", "SvrApi", "SvcLarge", "SvrLargeDense", "BadBatch",
+             "SvcFloatLabels", "SvcLab_unit", "SvcLab_zero", "SvcLab_eps", "SvcLab_adjacent", "SvcLab_huge",
+             "SvcLab_tiny", "SvcLab_negzero",
              "SvcBatch", "SvcBatchOver256", "SvcBatchOver1024", "SvrBatch", "SvrBatchOver256", "SvrBatchOver1024",
              "Gram_linear", "Gram_rbf", "Gram_sigmoid", "Gram_poly", "RbfFunctional", "SigAddition", "GramSingular",
              "Unknown"}
